@@ -293,15 +293,18 @@ def fam_fseq2d(g, t, W):
     if g.full:
         prod35 = [(a, b) for a in fullq(3) for b in fullq(5)]
         if t == "f64":
-            todo.append(((3, 5), prod35, ["ctor", "fadd", "vassign", "sum", "ctorx"]))
+            todo.append(((3, 5), prod35, ["ctor", "fadd", "vassign", "sum", "ctorx", "cctor", "cfexpr", "cfadd", "cfassign"]))
         elif t == "i32":
             todo.append(((3, 5), prod35, ["ctor"]))
-        todo.append(((4, 2 * W + 1), [(a, b) for a in thin(4) for b in wlist(2 * W + 1, W)], ["ctor", "fadd", "vassign"]))
+        todo.append(((4, 2 * W + 1), [(a, b) for a in thin(4) for b in wlist(2 * W + 1, W)], ["ctor", "fadd", "vassign", "cctor", "cfexpr"]))
     else:
+        # (const parent: the const view class has its own six readers - construction, expression and += each use another one)
         if t == "f64":
-            todo.append(((3, 5), [(a, b) for a in thin(3) for b in thin(5)], ["ctor", "fadd"]))
+            todo.append(((3, 5), [(a, b) for a in thin(3) for b in thin(5)], ["ctor", "fadd", "cctor", "cfexpr", "cfadd"]))
         elif t in ("f32", "i32"):
-            todo.append(((2, 2 * W + 1), [(a, b) for a in thin(2) for b in wlist(2 * W + 1, W)[:8]], ["ctor", "vassign"]))
+            todo.append(((2, 2 * W + 1), [(a, b) for a in thin(2) for b in wlist(2 * W + 1, W)[:8]], ["ctor", "vassign", "cctor"]))
+            # unequal row and column steps with a column count that leaves a scalar remainder
+            todo.append(((5, 2 * W + 3), [((0, 5, 2), (0, W + 1, 1)), ((1, 5, 1), (0, 2 * W + 3, 2)), ((0, 5, 2), (1, 2 * W + 3, 3))], ["ctor", "cctor", "cfexpr", "cfadd", "fadd"]))
     for sh, prs, ctxs in todo:
         for k, (a, b) in enumerate(prs):
             # encodings rotate over the family (every range pair in one spelling, every spelling many times)
@@ -317,15 +320,16 @@ def fam_fseqnd(g, t, W):
     last = wlist(2 * W + 1, W)[:8]
     if g.full:
         fam = [(a, b, c) for a in thin(2) for b in thin(3) for c in last]
-        ctxs = ["ctor", "fadd", "vassign"]
+        ctxs = ["ctor", "fadd", "vassign", "sum", "cctor", "cfadd"]
         if t not in ("f64",):
             fam = fam[::3]
-            ctxs = ["ctor", "vassign"]
+            ctxs = ["ctor", "vassign", "fadd", "cctor"]
     else:
         fam = [(a, b, c) for a in thin(2)[:2] for b in thin(3)[:3] for c in last]
         if t != "f64":
             fam = fam[::3]
-        ctxs = ["ctor"] if t != "f64" else ["ctor", "vassign"]
+        # (fadd / sum go through the flat vector reader, ctor through the multi-index one)
+        ctxs = ["ctor", "fadd"] if t != "f64" else ["ctor", "vassign", "fadd", "sum", "cctor", "cfadd"]
     for k, (a, b, c) in enumerate(fam):
         e = [_encodings(sh[i], *r)[(k // (3 ** i)) % 3] for i, r in enumerate((a, b, c))]
         g.rdm("fseq3d", t, sh, [F(*x[1:]) for x in e], ctxs + ["shape"], 0, 0.08 * len(ctxs))
